@@ -22,6 +22,9 @@ fn aux() -> Map<String, Value> {
     // named types that carry their own default
     m.insert("AuxLabel".into(), json!({"type": "string", "maxLength": 16, "default": "unnamed"}));
     m.insert("AuxLevel".into(), json!({"type": "integer", "enum": [0, 1, 2], "default": 1}));
+    // sorts before Target and holds one by an optional member (matters when Target refers to itself:
+    // where the recursion is cut depends on which definition is looked at first)
+    m.insert("AaHolder".into(), json!({"type": "object", "properties": {"held": {"$ref": "#/definitions/Target"}, "n": {"type": "integer"}}}));
     m
 }
 
@@ -44,6 +47,8 @@ fn prop_schema(g: &mut G) -> (Value, bool) {
         json!({"type": "array", "items": [{"type": "integer"}, {"type": "string"}], "minItems": 2, "maxItems": 2}),
         // a property that admits one value only still has to be supplied when it is required
         json!({"type": "null"}),
+        // the struct itself (only ever as a non-required member)
+        r("Target"),
     ];
     let s = g.pick(&opts).clone();
     let defaultable = s.get("$ref").is_none();
@@ -59,7 +64,8 @@ pub fn gen_c18_case(g: &mut G) -> Value {
     let mut required = vec![];
     for name in &names {
         let (mut s, defaultable) = prop_schema(g);
-        let req = g.chance(1, 2);
+        let recursive = s.get("$ref") == Some(&json!("#/definitions/Target"));
+        let req = !recursive && g.chance(1, 2);
         if req {
             required.push(name.clone());
         } else if defaultable && g.chance(1, 3) {
@@ -255,7 +261,8 @@ impl Property for C18 {
                 if let Some(o) = q.as_object_mut() {
                     o.remove("default");
                 }
-                crate::gen::schema::in_faithful(&q, &["AuxShort".to_string(), "AuxEnum".to_string(), "AuxStruct".to_string(), "AuxLabel".to_string(), "AuxLevel".to_string()])
+                crate::gen::schema::in_faithful(&q, &["AuxShort".to_string(), "AuxEnum".to_string(), "AuxStruct".to_string(), "AuxLabel".to_string(), "AuxLevel".to_string(), "Target".to_string()])
+                    && (q.get("$ref") != Some(&json!("#/definitions/Target")) || !req.contains(&props.iter().find(|(_, v)| *v == p).map(|(k, _)| k.as_str()).unwrap_or("")))
             })
     }
     fn judge(&self, case_v: &Value, unit: &Unit, compile: &CompileStatus, probes: &[ProbeResult], py: &mut Py) -> Result<Judged, String> {
